@@ -48,10 +48,10 @@ def target_plan(ns, base, tier):
     if tier != "quick":
         ts += [T.CTarget(ns, base / "c_any_asserts", "any", True),
                T.CTarget(ns, base / "c_little", "little", False),
-               T.CTarget(ns, base / "c_any_clang", "any", False, cc="clang"),
+               T.CTarget(ns, base / "c_any_clang", "any", False, cc="clang", cflags=("-O0",)),   # clang -O1 needs minutes on the big shim
                T.CTarget(ns, base / "c_ovr", "any", False, extra_nnvg=["--enable-override-variable-array-capacity"], tag="c/any+override-capacity"),
                T.CppTarget(ns, base / "cpp14_asserts", "c++14", asserts=True),
-               T.CppTarget(ns, base / "cpp17_clang", "c++17", cxx="clang++")]
+               T.CppTarget(ns, base / "cpp17_clang", "c++17", cxx="clang++", cxxflags=("-O0",))]
     # big-endian output cannot run on this host: generated and compiled only
     ts.append(T.CTarget(ns, base / "c_big", "big", False, run=False))
     return ts
@@ -487,7 +487,8 @@ def run_requests(ctx, sess, drv, stream, reqs, tally, targets=None, cross_target
             k = same_outcome(e, want_ref[i], got, nans[i])
             if k is not None:
                 sig = signature(e, want_ref[i], got, k) if got[0] in ("ser", "de", "rt") else (got[1][:80] if got[0] in ("crash", "exc") else "-")
-                key = {"kind": f"{r.op}:{k}", "lang": t.lang, "sig": sig}
+                # leaf = the primitive / item the difference sits in: a stable handle for known_findings.json matches
+                key = {"kind": f"{r.op}:{k}", "lang": t.lang, "sig": sig, "leaf": sig.rsplit(".", 1)[-1]}
                 tally.fail(key, f"{t.name}: {r.op} of {r.gt.full_name} differs from the DSDL rules ({k} at {sig})",
                            lambda r=r, t=t, i=i: {"type": f"{r.gt.full_name}.{r.gt.version[0]}.{r.gt.version[1]}", "expr": r.gt.tstr, "op": r.op,
                                                    "arg": r.text, "target": t.name, "options": t.options, "files": deps_texts(sess.ns, r.gt),
